@@ -142,7 +142,7 @@ def spell_href(sp, h, form):
     plain = bool(h) and not any(c in h for c in ' \t\n\r\f\'"()\\')
     if form == 'string' or '\\' in h:
         return ('str', q, h)
-    up = ''.join(r.choice('01') for _ in range(3)) if sp.level >= 3 else '000'
+    up = sp.mask('url')       # letter case and simple escapes of the name: URL(, u\\rl(
     pre = sp.ws() if sp.level >= 1 and r.random() < 0.3 else ''
     post = sp.ws() if sp.level >= 1 and r.random() < 0.3 else ''
     if form == 'url' and plain:
@@ -314,7 +314,7 @@ def t_href(h):
     if h[0] == 'str':
         return t_quote(h[1], h[2])
     _, up, pre, post, q, txt = h
-    word = ''.join(c.upper() if u == '1' else c for c, u in zip('url', up))
+    word = spell_name('url', up)
     return word + '(' + pre + (t_quote(q, txt) if q else txt) + post + ')'
 
 
@@ -444,7 +444,7 @@ def x_href(h):
     if h[0] == 'str':
         return '( str %s %s )' % (h[1], enc(h[2]))
     _, up, pre, post, q, txt = h
-    return '( url %s %s %s %s %s )' % (up, x_wschars(pre), x_wschars(post), q or 'none', enc(txt))
+    return '( url %s %s %s %s %s )' % (x_mask(up), x_wschars(pre), x_wschars(post), q or 'none', enc(txt))
 
 
 def x_opt(v):
